@@ -78,7 +78,9 @@ class Explorer(object):
             if self.sample and self.rnd:
                 prefix = work.pop(self.rnd.randrange(len(work)))
             else:
-                prefix = work.pop()
+                # fewest preemptions first (most races need one or two), then shortest
+                k = min(range(len(work)), key=lambda j: (_switches(work[j]), len(work[j]), j))
+                prefix = work.pop(k)
             out = self.run_one(prefix)
             ex = list(out['executed'])
             out['schedule'] = [e[0] for e in ex]
@@ -99,6 +101,10 @@ class Explorer(object):
                     if p not in seen_prefix:
                         seen_prefix.add(p)
                         work.append(list(p))
+
+
+def _switches(prefix):
+    return sum(1 for a, b in zip(prefix, prefix[1:]) if a != b)
 
 
 def validate(lines, timeout=3600):
@@ -197,6 +203,9 @@ def corpus(kind, s, tier, rnd):
         same = provider_writers(s, 'p3', lambda k: cur)
         stale = provider_writers(s, 'p3', lambda k: cur - 1)
         future = provider_writers(s, 'p3', lambda k: cur + 1)
+        # generation 0 is a stale generation like any other (and falsy in python)
+        zero = provider_writers(s, 'p3', lambda k: 0)
+        assert cur >= 2
         for i, a in enumerate(kinds):
             for b in kinds[i:]:
                 ra, rb = dict(same[a]), dict(same[b])
@@ -210,6 +219,10 @@ def corpus(kind, s, tier, rnd):
                     out.append(('%s(stale)|%s' % (a, b), [dict(stale[a]), dict(same[b])]))
                 if tier == 'thorough' or rnd.random() < 0.15:
                     out.append(('%s(future)|%s' % (a, b), [dict(future[a]), dict(same[b])]))
+            out.append(('%s(zero)|rename' % a, [dict(zero[a]), dict(same['rename'])]))
+            if tier == 'thorough':
+                for b in carriers:
+                    out.append(('%s(zero)|%s' % (a, b), [dict(zero[a]), dict(same[b])]))
         # three in flight together, same generation
         trip = [('inv_put_all', 'rp_traits_put', 'agg_put'), ('inv_put', 'inv_put', 'reshape'),
                 ('rp_traits_put', 'rp_traits_put', 'rp_traits_del'), ('inv_put_all', 'alloc_put', 'agg_put')]
@@ -238,6 +251,7 @@ def corpus(kind, s, tier, rnd):
                                s.entry('c2', {'p2': {'DISK_GB': 1}}, cgen=-1)]),
             'reshape_null': reshape([s.entry('c1', {'p2': {'DISK_GB': 2}}, cgen=-1)]),
             'put_null_empty': put('c1', {}, -1),
+            'put_null_typed': put('c1', {'p3': {'VCPU': 1}}, -1, ctype='MIGRATION'),
         }
         old_variants = {
             'put_cur': put('c3', {'p1': {'VCPU': 2}}, g3),
@@ -245,6 +259,7 @@ def corpus(kind, s, tier, rnd):
             'put_cur_empty': put('c3', {}, g3),
             'put_stale': put('c3', {'p1': {'VCPU': 4}}, g3 - 1),
             'put_next': put('c3', {'p1': {'VCPU': 5}}, g3 + 1),
+            'put_zero': put('c3', {'p1': {'VCPU': 6}}, 0),
             'post_cur': post([s.entry('c3', {'p1': {'VCPU': 3}}, cgen=g3),
                               s.entry('c2', {'p2': {'DISK_GB': 1}}, cgen=-1)]),
             'reshape_cur': reshape([s.entry('c3', {'p2': {'DISK_GB': 4}}, cgen=g3)]),
@@ -259,6 +274,28 @@ def corpus(kind, s, tier, rnd):
                     out.append(('%s|%s' % (a, b), [dict(vs[a]), dict(vs[b])]))
         out.append(('put_null|put_null_b|put_gen0', [dict(new_variants[k]) for k in ('put_null', 'put_null_b', 'put_gen0')]))
         out.append(('put_cur|put_cur_b|put_cur_empty', [dict(old_variants[k]) for k in ('put_cur', 'put_cur_b', 'put_cur_empty')]))
+    elif kind == 'MIX':
+        # Requests below 1.28 carry no consumer generation and are outside C06 / C07 (the
+        # documentation warns against mixing them with 1.28+ writes); what a *rejected* one may
+        # do to a consumer another request creates is still bounded by C04, C08 and C12.
+        def put(c, allocs, cgen, v=39, **kw):
+            return dict(op='alloc_put', v=v, env=env, **s.entry(c, allocs, cgen=cgen, **kw))
+        old = {
+            'put_v27_toobig': put('c1', {'p1': {'VCPU': 200}}, -1, v=27),
+            'put_v12_toobig': put('c1', {'p1': {'VCPU': 200}}, -1, v=12),
+            'put_v27_unknown_provider': put('c1', {'p9': {'VCPU': 1}}, -1, v=27),
+            'post_v27_toobig': dict(op='alloc_post', v=27, env=env,
+                                    entries=[s.entry('c1', {'p1': {'VCPU': 200}}, cgen=-1)]),
+        }
+        new = {
+            'put_null_typed': put('c1', {'p3': {'VCPU': 1}}, -1, ctype='MIGRATION'),
+            'put_null_v28': put('c1', {'p2': {'DISK_GB': 3}}, -1, v=28),
+            'post_null': dict(op='alloc_post', v=39, env=env,
+                              entries=[s.entry('c1', {'p1': {'VCPU': 1}}, cgen=-1, ctype='VOLUME')]),
+        }
+        for a in sorted(old):
+            for b in sorted(new):
+                out.append(('%s|%s' % (a, b), [dict(old[a]), dict(new[b])]))
     elif kind == 'C09':
         # concurrent moves, creations and deletions in the hierarchy
         # base: p1 <- p2, p3 root; add a deeper tree first (done by the caller's base state: p1 <- p2)
@@ -307,6 +344,19 @@ def corpus(kind, s, tier, rnd):
             'move_under_p2': dict(op='rp_update', v=39, u='p3', name='p3', parent='p2'),
             'inv_with_class': dict(op='inv_post', v=39, u='p2', rc='CUSTOM_RC1', inv=INV(3)),
             'trait_on_p2': dict(op='rp_traits_put', v=39, u='p2', gen=s.gen('p2'), traits=['CUSTOM_T1']),
+            'put_all_with_class': dict(op='inv_put_all', v=39, u='p2', gen=s.gen('p2'),
+                                       invs=[{'rc': 'DISK_GB', 'inv': INV(100)}, {'rc': 'CUSTOM_RC1', 'inv': INV(3)}]),
+            'reshape_with_class': dict(op='reshape', v=39, env=env,
+                                       invs=[{'u': 'p2', 'gen': s.gen('p2'),
+                                              'invs': [{'rc': 'DISK_GB', 'inv': INV(100)}, {'rc': 'CUSTOM_RC1', 'inv': INV(3)}]}],
+                                       entries=[]),
+            'reshape_with_class_clearing': dict(op='reshape', v=39, env=env,
+                                                invs=[{'u': 'p2', 'gen': s.gen('p2'),
+                                                       'invs': [{'rc': 'DISK_GB', 'inv': INV(100)}, {'rc': 'CUSTOM_RC1', 'inv': INV(3)}]}],
+                                                entries=[s.entry('c4', {}, project='proj2', user='user2', ctype='MIGRATION')]),
+            'aggs_on_p2': dict(op='agg_put', v=39, u='p2', gen=s.gen('p2'), aggs=['agg2']),
+            'aggs_on_p2_legacy': dict(op='agg_put', v=18, u='p2', gen=-1, aggs=['agg2']),
+            'inv_on_p2': dict(op='inv_post', v=39, u='p2', rc='VCPU', inv=INV(2)),
             'post_use_p2': dict(op='alloc_post', v=39, env=env,
                                 entries=[s.entry('c1', {'p2': {'DISK_GB': 1}}, cgen=-1),
                                          s.entry('c2', {'p1': {'VCPU': 1}}, cgen=-1)]),
